@@ -59,6 +59,12 @@ func runR35(c *Ctx) {
 			case *ssa.BinOp:
 				if fnName == "==" && v.Op == token.EQL {
 					a0, a1, okFn = v.X, v.Y, true
+					// equality is symmetric: whichever side is the cell (or its upper-cased copy)
+					if a1 == ssa.Value(fn.Params[1]) {
+						a0, a1 = a1, a0
+					} else if call, ok := a1.(*ssa.Call); ok && call.Call.StaticCallee() != nil && call.Call.StaticCallee() == p.anchorUpper() {
+						a0, a1 = a1, a0
+					}
 				}
 			}
 			if !okFn {
@@ -734,7 +740,7 @@ func runR26(c *Ctx) {
 				if isFuncNamed(calleeObj(call), "math", "", "NaN") {
 					for _, g := range dominatingGuards(call.Block()) {
 						if b, ok := g.Cond.(*ssa.BinOp); ok && b.Op == token.EQL && g.Val {
-							if fieldNameOfLoad(b.X) == "start" && fieldNameOfLoad(b.Y) == "end" {
+							if fieldNameOfLoad(b.X) == "start" && fieldNameOfLoad(b.Y) == "end" || fieldNameOfLoad(b.X) == "end" && fieldNameOfLoad(b.Y) == "start" {
 								nan = true
 							}
 						}
